@@ -64,6 +64,7 @@ type Obs struct {
 	ErrCode int        `json:"errcode"`
 	AccCode int        `json:"acccode"`
 	Packed  obsPacked  `json:"packed"`
+	Extra   [][]string `json:"extra"` // additional inputs (names) for the driver-level check: random sentences and mutations
 	Text    string     `json:"-"`
 	Stdout  string     `json:"-"`
 }
@@ -166,6 +167,7 @@ func Observe(c *Case) *Obs {
 	}
 	o.ID, o.G, o.Text = c.ID, c.TLA(), text
 	o.Outcome, o.Diag, o.Stdout = outcome, diag, stdout
+	o.Extra = [][]string{}
 	return o
 }
 
